@@ -1,7 +1,9 @@
 #!/usr/bin/env python3
 """usage: run_seeded.py import <id> <worktree> <property> '<confirm json>'   -- store a confirmed seeded change under /verif/seeded/<id>/
           run_seeded.py run [<id> ...]                                       -- apply each stored change to /repo, run every claimed quick check, undo, record
-The changes are never committed in /repo: `git -C /repo apply` ... `git -C /repo checkout -- .`"""
+The changes are never committed in /repo: `git -C /repo apply` ... `git -C /repo checkout -- .`
+CAUTION: a run applies each patch to /repo in turn and the checks rewrite /verif/evidence on the patched trees (a full corpus run takes about
+an hour): run nothing else meanwhile, and re-run `./check --all quick` on the clean tree before committing."""
 import json, os, shutil, subprocess, sys
 V = os.path.dirname(os.path.dirname(os.path.abspath(__file__)))
 S = os.path.join(V, "seeded")
